@@ -199,6 +199,14 @@ def judge(ctx, doc, want, opts, kind, case):
     try:
         s = serializer.HTMLSerializer(**so)
         out = s.render(h5.walker(kind)(tree), enc) if enc else s.render(h5.walker(kind)(tree))
+        if len(markup) % 3 == 0:
+            # the module-level door to the same thing
+            out_mf = serializer.serialize(tree, tree="dom" if kind == "dom" else "etree", encoding=enc, **so)
+            ctx.count("module_function_compared")
+            if out_mf != out:
+                ctx.violation("module-function-differs", case, "html5lib.serialize(...) gave %r, HTMLSerializer(...).render(...) %r" % (
+                    short(repr(out_mf), 200), short(repr(out), 200)))
+                return
     except Exception as e:
         ctx.violation("serializer-raised:" + type(e).__name__, case, "%s: %s" % (type(e).__name__, short(str(e), 200)))
         return
